@@ -190,11 +190,11 @@ var props = map[string]propSpec{
 		Real:   []string{"proxy/bulk.SeqDBClient (storeDocs, sendBulkToStores, shard.Bulk, write status)", "proxy/bulk.Ingestor.ProcessDocuments with frac.DocsMetasCompressor (a fifth of the context-free cases)", "network/circuitbreaker + cep21/circuit (real)", "second lane (every 4th chunk): the same client against real stores (fracmanager, frac, storeapi.GrpcV1) that crash in the middle of their writes, lose replies and are partitioned; afterwards every acknowledged bulk must sit, byte for byte, on every replica of some hot shard (and some long-term shard)"}, Stub: []string{"stores = scripted StoreApiClient stubs (first lane)", "transport = simnet (second lane)", "clock = synctest fake clock", "scheduling = verifsim"},
 		Variants: []string{"lane:storesim:cluster-c09:4"}},
 	"C10": {Engine: "proxysim", Level: "exploration", Batch: 300, QuickSec: 30, ThorSec: 600,
-		Rule: "one case = an ES bulk body from a grammar (action/document lines, valid object documents with escapes/unicode/nesting, non-objects, invalid JSON, over-size lines, empty lines, CRLF, unknown actions, missing final newline, body cut at byte k, read error at byte k, gzip) handed to the real BulkHandler.ServeHTTP -> real bulk.Ingestor (processor, indexer, tokenizers) -> capturing StorageClient, at a simulated clock; the bulk configuration is what proxyapi.NewIngestor runs with (its defaulting applied), past/future drift from {0, 0.5-1 s, 1 min, 1 day}; document times at -drift-1s, -drift, -drift+1s, +future-1s, +future, +future+1s and far, 30% of the timed documents with a second time field of another name, format and instant; the same body is delivered four times with different chunkings of the reader (whole, byte by byte, two seeded chunkings; in 15% of the cases 300 or 1500 simulated ms pass between chunks); oracle = independent framing parser + time rule; the outcome must be identical for every chunking; in 40% of the cases all deliveries go through one long-lived ingestor with the simulated clock advancing 0 ms .. 2 x drift between them (pooled per-request state meets requests of different times); in 30% a concurrent phase follows: 2-4 requests (documents marked with their request number) at once on one handler, optionally after a request whose store call failed, the body reader yielding at every Read under the seeded scheduler: every request must get the outcome of its own body and every storage call must carry the documents of exactly one request; non-trivial = always (every case exercises the stream); distinct = distinct (status counts, interleaving hash)",
+		Rule: "one case = an ES bulk body from a grammar (action/document lines, valid object documents with escapes/unicode/nesting, non-objects, invalid JSON, over-size lines, empty lines, CRLF, unknown actions, missing final newline, body cut at byte k, read error at byte k, gzip) handed to the real BulkHandler.ServeHTTP -> real bulk.Ingestor (processor, indexer, tokenizers) -> capturing StorageClient, at a simulated clock; the bulk configuration is what proxyapi.NewIngestor runs with (its defaulting applied), past/future drift from {0, 0.5-1 s, 1 min, 1 day}; document times at -drift-1s, -drift, -drift+1s, +future-1s, +future, +future+1s and far, 30% of the timed documents with a second time field of another name, format and instant; the same body is delivered four times with different chunkings of the reader (whole, byte by byte, two seeded chunkings; in 15% of the cases 300 or 1500 simulated ms pass between chunks; 40% of the concurrent phases send gzip bodies after a request that announces gzip and is not; after every request the ingestor must hold all its rate-limit tickets); oracle = independent framing parser + time rule; the outcome must be identical for every chunking; in 40% of the cases all deliveries go through one long-lived ingestor with the simulated clock advancing 0 ms .. 2 x drift between them (pooled per-request state meets requests of different times); in 30% a concurrent phase follows: 2-4 requests (documents marked with their request number) at once on one handler, optionally after a request whose store call failed, the body reader yielding at every Read under the seeded scheduler: every request must get the outcome of its own body and every storage call must carry the documents of exactly one request; non-trivial = always (every case exercises the stream); distinct = distinct (status counts, interleaving hash)",
 		Assume: []string{"document lines stay clear of the size limit itself (50 bytes below / 10 above): the boundary behaviour of the limit depends on the line terminator and is not part of the property", "valid/invalid JSON judged by encoding/json on clear-cut cases"},
 		Real:   []string{"proxyapi.BulkHandler (esBulkDocReader, gzip, response)", "proxy/bulk.Ingestor, processor, indexer", "tokenizer", "frac.DocsMetasCompressor"}, Stub: []string{"storage = capturing StorageClient that decodes the payload", "request body = seeded chunk reader", "clock = synctest fake clock"}},
 	"C16": {Engine: "proxysim", Level: "fault_enumeration", Batch: 300, QuickSec: 45, ThorSec: 600,
-		Rule: "one case = topology 1-3 shards x 1-3 replicas (+ optional long-term tier), real search.Ingestor (searchStores/searchShard, MergeQPRs, pagination, FetchDocsStream, merged docs iterators) over scripted stub stores answering from their slice of a model corpus; per call: ok, error, wants-old-data, too-many-fractions, with seeded latencies that decide the arrival order of shard replies; per fetch stream: ok, error, break after k, stall of 90 simulated seconds and then break, missing document, 1-3 unrequested or duplicated entries, swapped entries; 1-4 requests per run (offset/size/order/fetch; 15% through proxyapi Export with a deadline of one minute; in 20% of the cases all requests of the run are in flight at once on the one ingestor); oracle: error, or ids = correct merged top over exactly the shards that had an answering replica, flagged partial iff some shard had none (a shard counts as having none only if every replica scripted to answer whenever asked has been asked), long-term tier consulted iff a hot store wants old data, i-th document is the document of the i-th id, or empty only if some fetch call that was asked for it did not deliver it (failed call, broken stream before the entry, empty or reordered entry); a panic inside the proxy is treated as the error response its recovery interceptor produces; non-trivial = a non-ok outcome fired or the scheduler pre-empted; distinct = distinct (interleaving hash, fired outcome counts)",
+		Rule: "one case = topology 1-3 shards x 1-3 replicas (+ optional long-term tier), real search.Ingestor (searchStores/searchShard, MergeQPRs, pagination, FetchDocsStream, merged docs iterators) over scripted stub stores answering from their slice of a model corpus; per call: ok, error, wants-old-data, too-many-fractions, with seeded latencies that decide the arrival order of shard replies; per fetch stream: ok, error, break after k, stall of 90 simulated seconds and then break, missing document, 1-3 unrequested or duplicated entries, swapped entries; 1-4 requests per run (offset/size/order/fetch; 15% through proxyapi Export with a deadline of one minute; another 15% through the proxyapi Search, ComplexSearch or GetHistogram handlers with their own deadline of 10-70 simulated ms or a minute; in 20% of the cases all requests of the run are in flight at once on the one ingestor); oracle: error, or ids = correct merged top over exactly the shards that had an answering replica, flagged partial iff some shard had none (a shard counts as having none only if every replica scripted to answer whenever asked has been asked), long-term tier consulted iff a hot store wants old data, i-th document is the document of the i-th id, or empty only if some fetch call that was asked for it did not deliver it (failed call, broken stream before the entry, empty or reordered entry); a panic inside the proxy is treated as the error response its recovery interceptor produces; non-trivial = a non-ok outcome fired or the scheduler pre-empted; distinct = distinct (interleaving hash, fired outcome counts)",
 		Assume: []string{"stub stores answer searches correctly for their own slice when scripted ok"},
 		Real:   []string{"proxy/search.Ingestor", "proxy/search docs iterators (grpc stream, merged, position based)", "seq.MergeQPRs", "second lane (every 3rd chunk): the same proxy code plus bulk.SeqDBClient against real stores (fracmanager, frac, storeapi.GrpcV1) with a hot tier under size-based retention and a long-term tier"}, Stub: []string{"stores = scripted StoreApiClient stubs (first lane)", "transport = simnet (second lane)", "clock = synctest fake clock", "scheduling = verifsim"},
 		Variants: []string{"lane:storesim:cluster-c16:3"}},
